@@ -16,7 +16,7 @@ THEOREMS = ["Ztr.Sched.C06_at_most_N", "Ztr.Sched.C06_progress", "Ztr.Sched.C06_
             "Ztr.Sched.C06_prints_all_done", "Ztr.Runner.C06_layer_same_in_every_process",
             "Ztr.Runner.C06_whole_run", "Ztr.Runner.C06_equals_sequential", "Ztr.Channel.C06_dots_exact",
             "Ztr.Channel.C06_keeps_all_but_dots", "Ztr.Sched.printed_eq", "Ztr.Sched.C06_outcomes_in_layer_order",
-            "Ztr.Sched.C06_outcomes_complete", "Ztr.Sched.C06_D46_witness"]
+            "Ztr.Sched.C06_outcomes_complete", "Ztr.Sched.C06_all_displayed", "Ztr.Sched.C06_D46_witness"]
 RULE = ("k = 1..4 layers (quick: all k! completion orders for k <= 3, sampled for k = 4; thorough: all orders for "
         "k <= 5), N in 1..k+1, the three result collectors (verbosity 0 / 2 / N = 1), 0-3 output lines per child plus "
         "keep-alive dot lines and 0-3 reported failures/errors per child (handed over when the child is through); the "
